@@ -3376,8 +3376,9 @@ fn gen_model(rng: &mut Rng, tier: Tier, k: usize) -> Model {
                 .map(|_| match rng.below(if plain { 2 } else { 4 }) {
                     0 => Ann::Invalid(word(rng)),
                     1 => Ann::Str(word(rng), word(rng)),
-                    2 => Ann::Other(word(rng), 0x8000 + rng.below(0x8000) as u16, rand_u32(rng)),
-                    _ => Ann::Other(word(rng), 2 + rng.below(0x7ffe) as u16, rand_u32(rng)),
+                    // the boundary between "unsupported" and "user defined" (0x8000) is hit often
+                    2 => Ann::Other(word(rng), if rng.chance(1, 2) { *rng.pick(&[0x8000u16, 0x8001, 0xffff]) } else { 0x8000 + rng.below(0x8000) as u16 }, rand_u32(rng)),
+                    _ => Ann::Other(word(rng), if rng.chance(1, 2) { *rng.pick(&[0x7fffu16, 2, 3]) } else { 2 + rng.below(0x7ffe) as u16 }, rand_u32(rng)),
                 })
                 .collect();
             let nl = rng.below(4);
